@@ -745,22 +745,14 @@ func (u *Ufs) Wstat(req *SrvReq) {
 		}
 	}
 
-	// If either mtime or atime need to be changed, then
-	// we must change both.
 	if dir.Mtime != ^uint32(0) || dir.Atime != ^uint32(0) {
-		mt, at := time.Unix(int64(dir.Mtime), 0), time.Unix(int64(dir.Atime), 0)
-		if cmt, cat := (dir.Mtime == ^uint32(0)), (dir.Atime == ^uint32(0)); cmt || cat {
-			st, e := os.Stat(fid.path)
-			if e != nil {
-				req.RespondError(toError(e))
-				return
-			}
-			switch cmt {
-			case true:
-				mt = st.ModTime()
-			default:
-				// at = time.Time(0)//atime(st.Sys().(*syscall.Stat_t))
-			}
+		// the zero time leaves the corresponding time as it is
+		var mt, at time.Time
+		if dir.Mtime != ^uint32(0) {
+			mt = time.Unix(int64(dir.Mtime), 0)
+		}
+		if dir.Atime != ^uint32(0) {
+			at = time.Unix(int64(dir.Atime), 0)
 		}
 		e := os.Chtimes(fid.path, at, mt)
 		if e != nil {
